@@ -161,7 +161,8 @@ bool QXmppMamManager::handleStanza(const QDomElement &element)
             }
             return true;
         }
-    } else if (QXmppMamResultIq::isMamResultIq(element)) {
+    } else if (const auto type = element.attribute(u"type"_s);
+               type != u"get" && type != u"set" && QXmppMamResultIq::isMamResultIq(element)) {
         QXmppMamResultIq result;
         result.parse(element);
         Q_EMIT resultsRecieved(result.id(), result.resultSetReply(), result.complete());
